@@ -328,7 +328,7 @@ func (g *calcGen) number(depth int) string {
 
 func runCalc(t *testing.T) {
 	H.Rule("calc", "rapid: typed calc() trees of depth ≤4 over + - * /, numbers, lengths of one unit or mixed units (px, em, %, in, rem, vw), nested calc() and parentheses, var() leaves, in margin-top/width (length) and z-index/opacity (number) × {minify-syntax, +whitespace}; oracle: cssref canonical linear form Σ coef·unit·Πopaque of input vs output, equal within 1e-9 relative; non-trivial = output spelling differs")
-	H.SetupRapid("calc", H.N(6000, 300000))
+	H.SetupRapid("calc", H.N(6000, 400000))
 	rapid.Check(t, func(rt *rapid.T) {
 		g := &calcGen{t: rt}
 		depth := rapid.IntRange(1, 4).Draw(rt, "depth")
@@ -420,13 +420,13 @@ func genOpts(rt *rapid.T) cssgen.Opts {
 		// the two classes below are listed findings: generated rarely, so that the search goes on behind them
 		Logical:         b("o.logical", 6),
 		DeclAfterNested: b("o.declafter", 6),
-		MaxRules:   rapid.IntRange(2, 6).Draw(rt, "o.maxrules"),
+		MaxRules:        rapid.IntRange(2, 6).Draw(rt, "o.maxrules"),
 	}
 }
 
 func runCascade(t *testing.T) {
 	H.Rule("cascade", "rapid: style sheets over cssgen's grammar (3+1 tags, 3 classes, 2 ids, attribute forms, :hover/:first-child/:last-child/:active, :focus-visible and an unknown pseudo-class, ::before/::after and vendor pseudo-elements, all combinators, :is/:where/:not/:has, nesting with & in every position, @media incl. range syntax, @supports incl. selector(), @layer named/nested/anonymous/statement, @container, !important, box shorthand/longhand bursts, border-radius, colours in every notation, calc, var, custom properties, duplicates, reused bodies/selectors, junk declarations) × config (minify flags, old/mid engine targets, Supported overrides, loaders css/global-css/local-css); oracle: cssref cascade over 3 DOM trees (24 elements × pseudo-elements) × 5 devices × every admissible subset of the ≤6 relevant features: win_out(E) ∈ {win_in(E′): E′ ⊇ E}, exists whenever win_in(E) exists, equal when E understands all of the input; non-trivial = normalised rule/declaration structure of the output differs from the input")
-	H.SetupRapid("cascade", H.N(2400, 200000))
+	H.SetupRapid("cascade", H.N(2400, 400000))
 	rapid.Check(t, func(rt *rapid.T) {
 		o := genOpts(rt)
 		cfg := genConfig(rt)
@@ -446,6 +446,11 @@ func knownSignature(c SheetCase) string {
 	// C12-nesting-expansion-specificity: same configuration, a parent list with selectors of different specificity has nested style rules
 	if un["nesting"] && un["is-pseudo-class"] && hasMixedParentWithNested(c.CSS) {
 		return "C12-nesting-expansion-specificity"
+	}
+	// C12-nesting-amp-in-is-combinator: nesting is lowered and a nested selector has "&" inside a functional pseudo-class
+	// (the combinator in front of the parent's last compound selector is lost)
+	if un["nesting"] && reAmpInFunctional.MatchString(c.CSS) {
+		return "C12-nesting-amp-in-is-combinator"
 	}
 	// C12-inset-auto-not-lowered: inset is unsupported and an inset shorthand has a component that is not a plain number/dimension
 	if un["inset-property"] && reInsetNonNumeric.MatchString(c.CSS) {
@@ -520,26 +525,46 @@ var reLogicalBox = regexp.MustCompile(`(margin|padding|inset)-(block|inline)|bor
 // hasDeclAfterNestedRule: some style rule (or nested group rule) has a declaration after a nested rule.
 func hasDeclAfterNestedRule(css string) bool {
 	found := false
-	var walk func(items []cssref.Item, inStyle bool)
-	walk = func(items []cssref.Item, inStyle bool) {
+	var walk func(items []cssref.Item, inStyle bool, media []string)
+	walk = func(items []cssref.Item, inStyle bool, media []string) {
 		seenRule := false
-		for _, it := range items {
-			if it.Decl != nil {
-				if seenRule && inStyle {
-					found = true
+		var visit func(items []cssref.Item)
+		visit = func(items []cssref.Item) {
+			for _, it := range items {
+				if it.Decl != nil {
+					if seenRule && inStyle {
+						found = true
+					}
+					continue
 				}
-				continue
+				r := it.Rule
+				if r.At == "media" && inStyle {
+					// minify-syntax unwraps an @media that repeats an enclosing @media: its declarations join the enclosing block
+					key := strings.ToLower(cssref.Serialize(r.Prelude))
+					dup := false
+					for _, m := range media {
+						dup = dup || m == key
+					}
+					if dup {
+						visit(r.Items)
+						continue
+					}
+					seenRule = true
+					walk(r.Items, inStyle, append(append([]string{}, media...), key))
+					continue
+				}
+				seenRule = true
+				walk(r.Items, inStyle || r.At == "", media)
 			}
-			seenRule = true
-			walk(it.Rule.Items, inStyle || it.Rule.At == "")
 		}
+		visit(items)
 	}
 	sh := cssref.Parse(css)
 	items := make([]cssref.Item, len(sh.Rules))
 	for i, r := range sh.Rules {
 		items[i] = cssref.Item{Rule: r}
 	}
-	walk(items, false)
+	walk(items, false, nil)
 	return found
 }
 
